@@ -548,9 +548,75 @@ partial def docLoop (h : IO.FS.Stream) (out : IO.FS.Stream) (st : DocSt) : IO Un
 /-! ### `--leaf`: the translated string helpers (Generated/LeafFns.lean) run by the MiniC interpreter on the inputs
 that harness/leaf.c gives to the real C functions -/
 
+/-! functions over an `econf_file`: the object is laid out in word slots by the member lists the translator emitted -/
+
+open MiniC in
+def recFields (r : String) : List (String × Bool) := (LeafFns.records.lookup r).getD []
+
+open MiniC in
+def recDefault (r : String) : List Val := (recFields r).map (fun (_, isPtr) => if isPtr then Val.null else Val.int 0)
+
+open MiniC in
+def recSet (r : String) (vals : List Val) (field : String) (v : Val) : List Val :=
+  match (recFields r).findIdx? (fun p => p.1 == field) with
+  | some i => vals.set i v
+  | none => vals
+
+def kfFunctions : List String := ["has_group", "first_entry", "first_definition", "find_key", "getFromGroupList"]
+
+open MiniC in
+def kfLine (t : Array String) : String :=
+  let f := t.getD 0 ""
+  let spec := t.getD 1 "e"
+  let items := if spec.length ≤ 1 then [] else (spec.drop 1).toString.splitOn ","
+  let n := items.length
+  let isE := spec.startsWith "e"
+  let kf0 := recDefault "econf_file"
+  let kf1 := recSet "econf_file" (recSet "econf_file" kf0 "delimiter" (.int 61)) "comment" (.int 35)
+  let kf := if isE then
+      recSet "econf_file" (recSet "econf_file" (recSet "econf_file" kf1 "file_entry" (.ptr 1 0)) "length" (.int n)) "alloc_length" (.int n)
+    else recSet "econf_file" (recSet "econf_file" kf1 "groups" (.ptr 1 0)) "group_count" (.int n)
+  let strs : List (List UInt8) := if isE then
+      items.flatMap (fun it => match it.splitOn ":" with
+        | [g, k] => [decD g, decD k]
+        | _ => [[], []])
+    else items.map (fun it => decD it)
+  let arr : List Val := if isE then
+      (List.range n).flatMap (fun i =>
+        recSet "file_entry" (recSet "file_entry" (recDefault "file_entry") "group" (.ptr (2 + 2 * i) 0)) "key" (.ptr (3 + 2 * i) 0))
+    else (List.range n).map (fun i => Val.ptr (2 + i) 0) ++ [.null]
+  let mem0 : Mem := [{ cells := [], slots := kf }, { cells := [], slots := arr }] ++ strs.map strBlock
+  -- further arguments
+  let addArg := fun (acc : Mem × List Val) (tok : String) =>
+    if tok == "-" then (acc.1, acc.2 ++ [Val.null])
+    else if tok.startsWith "n" then (acc.1, acc.2 ++ [Val.int ((tok.drop 1).toString.toNat?.getD 0)])
+    else (acc.1 ++ [strBlock (decD tok)], acc.2 ++ [Val.ptr acc.1.length 0])
+  let (mem1, argv) := ((t.toList.drop 2).foldl addArg (mem0, []))
+  let (mem, args) : Mem × List Val := if f == "find_key" then (mem1 ++ [{ cells := [], slots := [.undef] }], [.ptr 0 0] ++ argv ++ [.ptr mem1.length 0])
+    else (mem1, [.ptr 0 0] ++ argv)
+  let fuel := spec.length + 16
+  match LeafFns.all.find? (fun fn => fn.name == f) with
+  | none => s!"{f} ?"
+  | some fn =>
+    match fn.run fuel mem args with
+    | .error e => s!"{f} fault {repr e}"
+    | .ok (v, m) =>
+      match f, v with
+      | "find_key", .int e =>
+        if e == 0 then
+          match m.loadSlot mem1.length 0 with
+          | .ok (.int k) => s!"{f} E0 {k}"
+          | r => s!"{f} E0 unreadable({repr r})"
+        else s!"{f} E{e} -"
+      | "getFromGroupList", .ptr blk _ => s!"{f} {blk - 2}"
+      | "getFromGroupList", .null => s!"{f} null"
+      | _, .int r => s!"{f} {r}"
+      | _, _ => s!"{f} unexpected result {repr v}"
+
 open MiniC in
 def leafLine (t : Array String) : String :=
   let f := t.getD 0 ""
+  if kfFunctions.contains f then kfLine t else
   let a := decD (t.getD 1 "h")
   let b := decD (t.getD 2 "h")
   let c := decD (t.getD 3 "h")
